@@ -434,6 +434,8 @@ func (g *c33Gen) selectors(thorough bool) {
 		"info(m)", "info(m, {ver=~\".+\"})", "info(h)", "info(mx, {__name__=\"target_info\"})", "info(m, {ver=\"3\"})", "info(target_info)", "info(m, {__name__=~\".+\"})", "info(sum by (job, instance) (m))",
 		"sort(h)", "sort_desc(mx)", "sort_by_label(h, \"a\")", "sort_by_label_desc(mx, \"a\", \"le\")",
 		"histogram_quantile(0.5, b)", "histogram_quantile(0.5, b2)", "histogram_quantile(0.5, b3)", "histogram_quantile(NaN, h)", "histogram_quantile(2, mx)", "histogram_fraction(0, 1, b2)", "histogram_fraction(-Inf, Inf, h)", "histogram_fraction(1, 0, h)", "histogram_fraction(NaN, 1, mx)",
+		"histogram_quantile(0.5, b{le=\"+Inf\"})", "histogram_fraction(0, 1, b{le=\"+Inf\"})", "histogram_quantile(0.5, b{le=\"1\"})", "histogram_quantile(0.5, b2{le=~\"abc|.Inf\"})", "histogram_quantiles(b{le=\"+Inf\"}, \"q\", 0.5)",
+		"topk(scalar(f{a=\"1\"}) - 50, f)", "bottomk(scalar(f{a=\"1\"}) - 50, h)", "limitk(scalar(f{a=\"1\"}) - 50, mx)", "limit_ratio(scalar(f{a=\"1\"}) / 50 - 1, mx)", "quantile(scalar(f{a=\"1\"}) / 50 - 1, f)",
 		"histogram_quantile(0.5, sum by (le) (b))", "histogram_quantile(0.5, sum by (le) (b2))", "histogram_quantile(scalar(f), h)", "histogram_quantiles(h, \"q\", 0.5, 0.9)", "histogram_quantiles(b, \"le\", 0.5)", "histogram_quantiles(mx, \"a\", NaN, 2, -1)",
 		"label_replace(h, \"a\", \"$1\", \"a\", \"(.*)\")", "label_replace(f, \"__name__\", \"x\", \"a\", \".*\")", "label_replace(f, \"a\", \"same\", \"\", \"\")", "label_join(mx, \"a\", \"-\", \"a\", \"__name__\")", "label_join(f, \"a\", \"\")", "label_replace(f, \"a\", \"\", \"a\", \".*\")",
 		"h </ 2", "h >/ 2", "h </ NaN", "h >/ -Inf", "h </ f", "f </ 1", "mx >/ 1", "h </ h", "h{a=\"4\"} </ 2", "h </ bool 1", "1 </ h", "h </ on (a) g", "h >/ on (a) group_left g",
@@ -727,6 +729,7 @@ func c33PanicClass(p string) string {
 func TestVerifC33(t *testing.T) {
 	r := vx.Start(t, "C33", "exploration")
 	defer r.Finish()
+	ag_StartWatchdog(r, 90*time.Second)
 	stor, err := c33BuildStorage(r)
 	if err != nil {
 		t.Fatal(err)
@@ -856,6 +859,7 @@ func TestVerifC33(t *testing.T) {
 func TestVerifC33Pairs(t *testing.T) {
 	r := vx.Start(t, "C33", "exploration")
 	defer r.Finish()
+	ag_StartWatchdog(r, 90*time.Second)
 	stor, err := c33BuildStorage(nil)
 	if err != nil {
 		t.Fatal(err)
